@@ -32,6 +32,7 @@ CatMap(f(_), n) == FoldLeft(LAMBDA acc, i : acc \o f(i), <<>>, [i \in 1..n |-> i
 
 -----------------------------------------------------------------------------
 (* 1. HTML escaping                                                          *)
+LowerHexJs == <<48, 49, 50, 51, 52, 53, 54, 55, 56, 57, 97, 98, 99, 100, 101, 102>>
 AMP == 38  LT == 60  GT == 62  QUOT == 34  APOS == 39  SEMI == 59  HASH == 35
 
 EscByte(b) ==
@@ -69,6 +70,15 @@ NoMarkup(t) == \A i \in 1..Len(t) :
                   /\ t[i] \notin {LT, GT, QUOT, APOS}
                   /\ (t[i] = AMP => EntLen(t, i) > 0)
 EscOk(in, out) == NoMarkup(out) /\ Unescape(out) = in
+
+\* JavaScript string escaping (filters::jsescape) - not part of C15's statement, mechanism layer only
+JsEscByte(b) ==
+    CASE b = 34 -> <<92, 34>> [] b = 92 -> <<92, 92>> [] b = 8 -> <<92, 98>> [] b = 12 -> <<92, 102>>
+      [] b = 10 -> <<92, 110>> [] b = 13 -> <<92, 114>> [] b = 9 -> <<92, 116>>
+      [] b = 39 \/ (b <= 31 /\ b \notin {8, 9, 10, 12, 13}) ->
+             <<92, 117, 48, 48, LowerHexJs[b \div 16 + 1], LowerHexJs[(b % 16) + 1]>>
+      [] OTHER -> <<b>>
+JsEscape(s) == CatMap(LAMBDA i : JsEscByte(s[i]), Len(s))
 
 -----------------------------------------------------------------------------
 (* 2. URL encoding                                                           *)
